@@ -1,6 +1,9 @@
 package main
 
 import (
+	"path/filepath"
+	"os/exec"
+	"encoding/json"
 	"flag"
 	"fmt"
 	"os"
@@ -24,6 +27,8 @@ func main() {
 		cmdCheck(os.Args[2:])
 	case "list":
 		cmdList(os.Args[2:])
+	case "replay":
+		cmdReplay(os.Args[2:])
 	default:
 		fmt.Fprintln(os.Stderr, "unknown command", os.Args[1])
 		os.Exit(2)
@@ -144,3 +149,69 @@ func cmdSweep(args []string) {
 	fmt.Printf("functions=%d discharged=%d failed=%d wall=%.1fs\n", len(results), nd, nf, time.Since(t0).Seconds())
 }
 
+
+
+// cmdReplay: `govc replay <file>` prints a recorded violation (obligation, reason, verifier output, model) and, when the
+// record carries a generated test, runs that test again on the real code of /repo through `go test -overlay`
+// (nothing is written into the repository). Exit status 1 if the failure reproduces.
+func cmdReplay(args []string) {
+	if len(args) != 1 {
+		fmt.Fprintln(os.Stderr, "usage: govc replay <replay.json>")
+		os.Exit(2)
+	}
+	b, err := os.ReadFile(args[0])
+	if err != nil {
+		fmt.Fprintln(os.Stderr, err)
+		os.Exit(2)
+	}
+	var rec struct {
+		Property   string            `json:"property"`
+		Obligation string            `json:"obligation"`
+		Function   string            `json:"function"`
+		Position   string            `json:"position"`
+		Reason     string            `json:"reason"`
+		Status     string            `json:"status"`
+		Output     string            `json:"verifier_output"`
+		Model      map[string]string `json:"model"`
+		Replay     *ReplayResult     `json:"replay"`
+	}
+	if err := json.Unmarshal(b, &rec); err != nil {
+		fmt.Fprintln(os.Stderr, err)
+		os.Exit(2)
+	}
+	fmt.Printf("property   %s\nobligation %s\nfunction   %s  %s\nstatus     %s (%s)\n", rec.Property, rec.Obligation, rec.Function, rec.Position, rec.Status, rec.Reason)
+	if len(rec.Model) > 0 {
+		fmt.Printf("model      %v\n", rec.Model)
+	}
+	if rec.Output != "" {
+		fmt.Printf("verifier output:\n%s\n", rec.Output)
+	}
+	if rec.Replay == nil || rec.Replay.Test == "" {
+		fmt.Println("no executable replay recorded for this obligation (no model, or no oracle for its kind)")
+		return
+	}
+	dir := ""
+	if i := strings.Index(rec.Replay.Cmd, "(in "); i >= 0 {
+		dir = strings.TrimSuffix(rec.Replay.Cmd[i+4:], ")")
+	}
+	if dir == "" {
+		fmt.Println("recorded test:\n" + rec.Replay.Test)
+		return
+	}
+	tmp, _ := os.MkdirTemp("", "govc-replay-")
+	defer os.RemoveAll(tmp)
+	tf := filepath.Join(tmp, "zz_govc_replay_test.go")
+	os.WriteFile(tf, []byte(rec.Replay.Test), 0o644)
+	ov, _ := json.Marshal(map[string]map[string]string{"Replace": {filepath.Join(dir, "zz_govc_replay_test.go"): tf}})
+	ovf := filepath.Join(tmp, "ov.json")
+	os.WriteFile(ovf, ov, 0o644)
+	cmd := exec.Command("bash", "-c", fmt.Sprintf("ulimit -v 8000000; cd %q && go test -overlay %q -vet=off -count=1 -timeout 60s -run '^TestGovcReplay$' . 2>&1 | tail -40", dir, ovf))
+	cmd.Env = append(os.Environ(), "PATH=/opt/veriftools/go1.26.8/bin:"+os.Getenv("PATH"), "GOFLAGS=-mod=mod", "GOPROXY=off", "GOTOOLCHAIN=local", "GOCACHE="+filepath.Join(os.TempDir(), "govc-gocache"))
+	out, _ := cmd.CombinedOutput()
+	fmt.Printf("replay on the real code (%s):\n%s", dir, out)
+	if strings.Contains(string(out), "GOVC-REPRODUCED") {
+		fmt.Println("REPRODUCED")
+		os.Exit(1)
+	}
+	fmt.Println("not reproduced")
+}
